@@ -950,6 +950,25 @@ class AuthRun(object):
         s.peer = AuthPeer(self, s, self.cfg)
         s.proto = TorControlProtocol(pf) if proto is None else proto
         s.proto.post_bootstrap.addCallbacks(lambda v, s=s: self.ready_ok(s, v), lambda f, s=s: self.ready_err(s, f))
+        if proto is None and ch.chance(1, 5, 'viewsattached'):
+            # the application hangs its views on the protocol before authentication is decided (what Tor.create_state(),
+            # get_config() and TorInfo do), in any order: if authentication fails none of them may talk to that Tor
+            from txtorcon.torstate import TorState
+            from txtorcon.torconfig import TorConfig
+            from txtorcon.torinfo import TorInfo
+            kinds = ['state', 'config', 'info']
+            order = []
+            for _ in range(1 + ch.draw(3, 'nviews')):
+                k = ch.pick(kinds, 'viewkind')
+                kinds.remove(k)
+                order.append(k)
+            sim.probe('views-attached-before-authentication')
+            sim.log('views', s.idx, ','.join(order))
+            s.views = []
+            for k in order:
+                v = TorState(s.proto) if k == 'state' else TorConfig(s.proto) if k == 'config' else TorInfo(s.proto)
+                v.post_bootstrap.addErrback(lambda f: None)
+                s.views.append(v)
         s.peer.on_command = lambda line, s=s: self.on_server_command(s, line)
         s.fault_cut_enabled = ch.chance(1, 5, 'cutfault')
         seg = ch.pick(['mixed', 'whole', 'mixed', 'bytewise'], 'segmode')
